@@ -13,7 +13,7 @@ META = {
             '(checked at generator start-up); slices.SortFunc / BinarySearchFunc by contract; the Go harness and line protocol.',
 }
 THEOREMS = ['Scalibr.Vulns.C18_range', 'Scalibr.Vulns.C18_listing_order', 'Scalibr.Vulns.C18_listing_order_decision',
-            'Scalibr.Vulns.C18_record', 'Scalibr.Vulns.C18_decl', 'Scalibr.Vulns.C18_range_type', 'Scalibr.Vulns.C18_other', 'Scalibr.Vulns.C18_unknown_ecosystem',
+            'Scalibr.Vulns.C18_record', 'Scalibr.Vulns.C18_decl', 'Scalibr.Vulns.C18_range_cmp', 'Scalibr.Vulns.C18_range_type', 'Scalibr.Vulns.C18_other', 'Scalibr.Vulns.C18_unknown_ecosystem',
             'Scalibr.Vulns.C18_sort_pre', 'Scalibr.Vulns.C18_illformed_differs', 'Scalibr.Vulns.specAffectedB_iff']
 
 
